@@ -509,7 +509,14 @@ class FileStorage(
                 # Now call this method again to get the new data.
                 return self._restore_index()
 
-        tid = self._sane(index, pos)
+        try:
+            tid = self._sane(index, pos)
+        except Exception:
+            # The index does not describe this file (e.g. it was saved
+            # before a pack): the check read garbage where it points.
+            logger.warning("Ignoring index for %s", self._file_name,
+                           exc_info=True)
+            tid = 0
         if not tid:
             return None
 
